@@ -1,3 +1,4 @@
+import Gtree.Lemmas.SourceConfig
 import Gtree.Lemmas.SourceRefines
 import Gtree.Lemmas.Validate
 import Gtree.Props.C05
@@ -219,4 +220,14 @@ namespace Gtree
 theorem C07_validation_is_the_source (v : Visit) (hroot : v.level = 1 → v.path = v.name) :
     Src.Node.validatePath (visitNode v) = (validateVisit v).map verrSrc :=
   validatePath_src v hroot
+end Gtree
+
+namespace Gtree
+open Gtree.Src in
+/-- Tie to the source: the configuration of Mkdir (`newConfigWithoutEncode`, config.go, translated on this run) keeps
+    every option except the encoding — in particular dry run (which switches name validation on) and the target
+    directory are what the caller asked for, whatever encoding option is also in the list. -/
+theorem C07_mkdir_config_in_the_source (xs : List (Option (config → config))) :
+    newConfigWithoutEncode xs = { newConfig xs with encode := encodeDefault } :=
+  newConfigWithoutEncode_src xs
 end Gtree
